@@ -322,6 +322,8 @@ type Response struct {
 	HasCtor bool `json:"has_ctor,omitempty"`
 	// build
 	BuildErr     string   `json:"build_err,omitempty"`
+	// Held: JSON of the object inside the builder when Build() refused it
+	Held string `json:"held,omitempty"`
 	NoSuchOption string   `json:"no_such_option,omitempty"`
 	ArgErr       string   `json:"arg_err,omitempty"`
 	Options      []string `json:"options,omitempty"`
@@ -388,6 +390,7 @@ import (
 	"fmt"
 	"os"
 	"reflect"
+	"unsafe"
 )
 
 type entry struct {
@@ -545,6 +548,7 @@ type response struct {
 	Encoded2      string       ` + "`json:\"encoded2,omitempty\"`" + `
 	HasCtor       bool         ` + "`json:\"has_ctor,omitempty\"`" + `
 	BuildErr      string       ` + "`json:\"build_err,omitempty\"`" + `
+	Held          string       ` + "`json:\"held,omitempty\"`" + `
 	NoSuchOption  string       ` + "`json:\"no_such_option,omitempty\"`" + `
 	ArgErr        string       ` + "`json:\"arg_err,omitempty\"`" + `
 	Options       []string     ` + "`json:\"options,omitempty\"`" + `
@@ -641,6 +645,15 @@ func handle(req request) (resp response) {
 			err := out[1].Interface().(error)
 			resp.BuildErr = errString(err)
 			flatten(err, &resp.Errors)
+			// the object the builder holds, which Build() refused
+			if bv.Kind() == reflect.Ptr && bv.Elem().Kind() == reflect.Struct {
+				if f := bv.Elem().FieldByName("internal"); f.IsValid() && f.CanAddr() {
+					held := reflect.NewAt(f.Type(), unsafe.Pointer(f.UnsafeAddr())).Elem().Interface()
+					if raw, merr := json.Marshal(held); merr == nil {
+						resp.Held = string(raw)
+					}
+				}
+			}
 			return
 		}
 		raw, err := json.Marshal(out[0].Interface())
